@@ -1,7 +1,155 @@
 import Driver.Common
+import Log4rsModel.Roller.Spec
+/-
+C07 driver.
+case   : kind(fw|del)  pattern  base  count  env(name:value,…)  file  init(path:bytes,…)  rolls(bytes|-,…)
+observation (one field): per roll `res|snapshot`, rolls joined by `/`; snapshot = `path:bytes,…`
+sorted by path, `~` when empty; res ∈ ok | err | PANIC; `build-err` when the builder rejects.
+-/
 namespace Driver.C07
-open Driver
+open Log4rs.Proto Log4rs.Roller Log4rs Driver
 
-def handle : Handler := fun _ _ => badCase "unimplemented"
+def pathLt : List Char → List Char → Bool
+  | [], [] => false
+  | [], _ :: _ => true
+  | _ :: _, [] => false
+  | a :: as, b :: bs => if a.toNat < b.toNat then true else if b.toNat < a.toNat then false else pathLt as bs
+
+def insertSorted (e : Path × Bytes) : List (Path × Bytes) → List (Path × Bytes)
+  | [] => [e]
+  | x :: xs => if pathLt e.1 x.1 then e :: x :: xs else x :: insertSorted e xs
+
+def sortFiles (fs : List (Path × Bytes)) : List (Path × Bytes) := fs.foldl (fun acc e => insertSorted e acc) []
+
+def encSnap (d : Disk) : String :=
+  encList "," ((sortFiles d.files).map (fun e => encStr e.1 ++ ":" ++ encBytes e.2))
+
+def decPair {α β} (f : String → Option α) (g : String → Option β) (s : String) : Option (α × β) :=
+  match splitOnChar ':' s with
+  | [a, b] => match f a, g b with
+    | some x, some y => some (x, y)
+    | _, _ => none
+  | _ => none
+
+def decSnap (s : String) : Option Disk :=
+  (mapM? (decPair decStr decBytes) (decList ',' s)).map (fun fs => ⟨fs⟩)
+
+def decRollObs (s : String) : Option RollObs :=
+  match splitOnChar '|' s with
+  | [res, snap] => (decSnap snap).map (fun d => { res, snap := d })
+  | _ => none
+
+structure Case where
+  isDelete : Bool
+  pattern : List Char
+  base : Nat
+  count : Nat
+  env : List (List Char × List Char)
+  file : Path
+  init : Disk
+  rolls : List (Option Bytes)
+
+def decCase : List String → Option Case
+  | [kind, pat, b, c, env, file, init, rolls] => do
+    let isDelete ← (if kind = "del" then some true else if kind = "fw" then some false else none)
+    let pattern ← decStr pat
+    let base ← decNat b
+    let count ← decNat c
+    let env ← mapM? (decPair decStr decStr) (decList ',' env)
+    let file ← decStr file
+    let init ← decSnap init
+    let rolls ← mapM? (decOpt decBytes) (decList ',' rolls)
+    pure { isDelete, pattern, base, count, env, file, init, rolls }
+  | _ => none
+
+def Case.roller (c : Case) : RollerCfg := mkRoller (expandEnv c.env) id c.pattern c.base c.count
+
+def renderRes : Outcome FsErr Disk → String
+  | .ok _ => "ok"
+  | .err _ => "err"
+  | .panic _ => "PANIC"
+
+/-- the model's run: write the file, roll, snapshot — for every roll -/
+def runModel (c : Case) : Disk → List (Option Bytes) → List String
+  | _, [] => []
+  | d, x :: rest =>
+    let d1 := match x with
+      | some x => d.set c.file x
+      | none => d
+    let (res, d2) :=
+      if c.isDelete then
+        match deleteRoll c.file (fun _ => false) d1 with
+        | (.ok a, b) => ((Outcome.ok a : Outcome FsErr Disk), b)
+        | (.error e, b) => (.err e, b)
+      else rollU32 c.roller c.file (fun _ => false) d1
+    (renderRes res ++ "|" ++ encSnap d2) :: runModel c d2 rest
+
+def countHoles : List Char → Nat
+  | [] => 0
+  | '{' :: '}' :: rest => 1 + countHoles rest
+  | _ :: rest => countHoles rest
+
+def tagsOf (c : Case) : List String :=
+  let r := c.roller
+  let win := (List.range c.count).map (fun j => slot r c.init (c.base + j))
+  let nRolls := c.rolls.length
+  let names := windowNames r
+  let hasGap := (win.dropWhile Option.isNone).any Option.isNone &&
+    ((win.dropWhile Option.isNone).dropWhile Option.isSome).any Option.isSome
+  let leadGap := match win with
+    | none :: rest => rest.any Option.isSome
+    | _ => false
+  let bystanders := c.init.files.filter (fun e => e.1 ≠ c.file && !names.contains e.1)
+  let lastSlash := c.pattern.reverse.dropWhile (· ≠ '/')
+  (if c.isDelete then ["delete"] else if c.count = 0 then ["count0"] else ["fw"]) ++
+  (if !c.isDelete && c.count ≠ 0 && nRolls > c.count then ["evict"] else []) ++
+  (if !c.isDelete && c.count ≥ 3 && nRolls ≥ 2 then ["shift-chain"] else []) ++
+  (if !c.isDelete && win.any Option.isSome then ["preexisting"] else []) ++
+  (if !c.isDelete && (hasGap || leadGap) then ["gap"] else []) ++
+  (if !bystanders.isEmpty then ["bystander"] else []) ++
+  (if !c.isDelete && countHoles c.pattern ≥ 2 then ["repeat"] else []) ++
+  (if !c.isDelete && hasHole lastSlash.reverse then ["dir-index"] else []) ++
+  (if !c.isDelete && c.pattern ≠ expandEnv c.env c.pattern then ["env"] else []) ++
+  (match compressionOf c.pattern with
+    | .gzip => if c.isDelete then [] else ["gz"]
+    | .zstd => if c.isDelete then [] else ["zst"]
+    | .none => []) ++
+  (if c.rolls.any Option.isNone then ["missing-file"] else []) ++
+  (if !c.isDelete && c.count ≠ 0 && U32_MOD ≤ c.base + c.count then ["u32-overflow"] else []) ++
+  (if !c.isDelete && !hasHole c.pattern then ["no-hole"] else []) ++
+  (if nRolls = 0 then ["trivial"] else [])
+
+def signature (c : Case) (clause : String) : String :=
+  if !c.isDelete && c.count ≠ 0 && U32_MOD ≤ c.base + c.count then "C07/base-plus-count-overflows-u32"
+  else if clause = "roll panicked" then "C07/panic"
+  else if clause = "roll failed" then "C07/roll-failed"
+  else if clause = "rolled file still at its path" then "C07/rolled-file-remains"
+  else if clause = "slot b+j does not hold the (j+1)-th most recent file" then "C07/wrong-slot-content"
+  else if clause = "older slot holds foreign content" then "C07/foreign-content"
+  else "C07/frame"
+
+def handle : Handler := fun cas obs =>
+  match decCase cas, obs with
+  | some c, [implObs] =>
+    if !c.isDelete && !hasHole c.pattern then
+      { model := "build-err", spec := if implObs = "build-err" then "ok" else "FAIL:builder accepted a pattern without {};sig=C07/no-hole-accepted",
+        tags := tagsOf c }
+    else
+      let model := encList "/" (runModel c c.init c.rolls)
+      let r := c.roller
+      match mapM? decRollObs (decList '/' implObs) with
+      | none => { model, spec := "FAIL:unreadable observation;sig=C07/observation", tags := tagsOf c }
+      | some os =>
+        if os.length ≠ c.rolls.length then
+          { model, spec := "FAIL:observation length;sig=C07/observation", tags := tagsOf c }
+        else
+          let sc : SpecCfg := { names := if c.isDelete then [] else windowNames r, file := c.file }
+          let initWin := sc.names.filterMap (fun nm => c.init.get? nm)
+          let spec := match checkRolls sc initWin c.init [] (c.rolls.zip os) with
+            | none => "ok"
+            | some clause => "FAIL:" ++ clause ++ ";sig=" ++ signature c clause
+          { model, spec, tags := tagsOf c }
+  | none, _ => badCase "case"
+  | _, _ => badCase "arity"
 
 end Driver.C07
